@@ -117,6 +117,9 @@ class PropertyRun:
                 self.trusted.append(t)
 
     def execute(self):
+        if self.tier == 'thorough':
+            from .battery import add_batteries
+            add_batteries(self)
         outs = run_tasks(self.tasks, self.tier)
         results, functions, notes, bounded, crashes, errors = [], [], [], [], [], []
         seen_frame = set()
